@@ -87,7 +87,18 @@ def check(prop, tier, seed):
                     if key not in seen:
                         seen.add(key)
                         f.write(json.dumps(a) + "\n")
-            while len(seen) < 330:
+            # the template has a conditional branch for an enum variant called Error: combine it with every preferred
+            # internal name (and its first fallback) in every other role
+            for other in ("Node", "Node2", "Quasiterminal", "State", "Action", "RuleKind", "NonterminalKind", "QuasiterminalKind", "Eof", "S"):
+                for r2 in ("start", "en", "tu", "un", "tenum", "t1"):
+                    a = dict(BENIGN)
+                    a["v1"], a[r2] = "Error", other
+                    key = json.dumps(a, sort_keys=True)
+                    if key not in seen:
+                        seen.add(key)
+                        f.write(json.dumps(a) + "\n")
+            n_fixed = len(seen)
+            while len(seen) < n_fixed + 300:
                 r1, r2 = rng.sample(ROLES, 2)
                 a = dict(BENIGN)
                 a[r1], a[r2] = rng.choice(TYPE_POOL), rng.choice(TYPE_POOL)
